@@ -242,13 +242,19 @@ func runC02(c *Ctx) {
 			var cls2 func(e *PPA, st *State, rv RV) string
 			cls2 = func(e *PPA, st *State, rv RV) string {
 				r := e.Resolve(st, rv)
+				// the stored value is a notification (comma-ok assertion of the callback's argument)
+				if ex, ok := r.V.(*ssa.Extract); ok && ex.Index == 1 {
+					if ta, ok := ex.Tuple.(*ssa.TypeAssert); ok && ta.CommaOk && isNamed(ta.AssertedType, "proto/gnmi", "Notification") {
+						return "ISNOTI"
+					}
+				}
 				if call, ok := r.V.(*ssa.Call); ok && (calleeName(&call.Call) == "cache.T") {
 					return cls2(e, st, RV{r.F, call.Call.Args[0]})
 				}
 				return cls(e, st, rv)
 			}
 			for _, rel := range []int{-1, 0, 1} {
-				at := &Atoms{Class: cls2, Rel: map[[2]string]int{{"STORED", "DEL"}: rel}}
+				at := &Atoms{Class: cls2, Bool: map[string]bool{"ISNOTI": true}, Rel: map[[2]string]int{{"STORED", "DEL"}: rel}}
 				e := &PPA{Cond: at.Cond}
 				e.RunClosure(mc)
 				c.Paths += len(e.Paths)
